@@ -54,10 +54,17 @@ KeyIntInt == {<<"BitCount", <<"bitcount">>, <<>>>>, <<"LRange", <<"lrange">>, <<
               <<"ZRangeWithScores", <<"zrange">>, <<"withscores">>>>,
               <<"ZRevRangeWithScores", <<"zrevrange">>, <<"withscores">>>>,
               <<"ZRangeByScoreWithScores", <<"zrangebyscore">>, <<"withscores">>>>}
-\* methods  f(key, strings...)
-KeyStrs == {<<"HDel", "hdel", F2>>, <<"HMGet", "hmget", F2>>, <<"LPush", "lpush", V2>>, <<"RPush", "rpush", V2>>,
-            <<"PFAdd", "pfadd", V2>>, <<"SAdd", "sadd", M2>>, <<"SRem", "srem", M2>>, <<"ZRem", "zrem", M2>>,
-            <<"GeoHash", "geohash", M2>>, <<"GeoPos", "geopos", M2>>}
+\* methods  f(key, strings ...string)
+KeyStrs == {<<"HDel", "hdel", F2>>, <<"HMGet", "hmget", F2>>, <<"GeoHash", "geohash", M2>>, <<"GeoPos", "geopos", M2>>}
+\* methods  f(key, values ...any): the elements travel one by one whatever the shape in which the caller hands
+\* them over - every element an argument of its own (none: no trailing argument), or ONE argument that is a []string,
+\* a []any or a single-entry map[string]string / map[string]any (go-redis spreads a lone slice / map argument;
+\* same dimension as RedisKV.tla, "argument shapes")
+KeyAnys == {<<"LPush", "lpush", V2>>, <<"RPush", "rpush", V2>>, <<"PFAdd", "pfadd", V2>>, <<"SAdd", "sadd", M2>>,
+            <<"SRem", "srem", M2>>, <<"ZRem", "zrem", M2>>}
+ShapesOf(n) == IF n = 2 THEN {"flat", "strs", "anys", "smap", "amap"} ELSE {"flat", "strs", "anys"}
+\* the element sequences of a variadic part drawn from the pairs PP: nothing, one element, two elements
+Upto2(PP) == {<<>>} \cup {<<p[1]>> : p \in PP} \cup PP
 \* methods  f(keys...)
 Keys_ == {<<"Del", "del">>, <<"MGet", "mget">>, <<"SUnion", "sunion">>, <<"SDiff", "sdiff">>, <<"SInter", "sinter">>}
 \* methods  f(dest, keys...)  emitted as  prefix dest keys
@@ -71,13 +78,17 @@ Rows ==
   \cup {One(t[1], [k |-> k, s |-> t[3]], <<t[2], k, t[3]>>) : t \in KeyStr, k \in K}
   \cup {One(t[1], [k |-> "ka", x |-> p[1], y |-> p[2]], <<t[2][1], "ka", S(p[1]), S(p[2])>> \o t[3]) : t \in KeyIntInt, p \in P2}
   \cup UNION {{One(t[1], [k |-> "ka", ss |-> ss], <<t[2], "ka">> \o ss) : ss \in t[3]} : t \in KeyStrs}
+  \cup UNION {UNION {{One(t[1], [k |-> "ka", ss |-> ss, sh |-> sh], <<t[2], "ka">> \o ss) : sh \in ShapesOf(Len(ss))} :
+                        ss \in Upto2(t[3])} : t \in KeyAnys}
   \cup {One(t[1], [ks |-> kk], <<t[2]>> \o kk) : t \in Keys_, kk \in KS}
   \cup {One(t[1], [dst |-> "kc", ks |-> kk], t[2] \o <<"kc">> \o kk) : t \in DestKeys, kk \in KS}
   \cup {One("BitOpNot", [dst |-> kk[1], k |-> kk[2]], <<"bitop", "not", kk[1], kk[2]>>) : kk \in K2}
   \cup {One("BitPos", [k |-> "ka", bit |-> b, x |-> p[1], y |-> p[2]], <<"bitpos", "ka", S(b), S(p[1]), S(p[2])>>) : b \in Bits, p \in P2}
   \cup {One("SetBit", [k |-> "ka", x |-> n, bit |-> b], <<"setbit", "ka", S(n), S(b)>>) : n \in N1, b \in Bits}
-  \cup {One("Eval", [script |-> "return 1", ks |-> kk, ss |-> vv], <<"eval", "return 1", S(Len(kk))>> \o kk \o vv) : kk \in KS, vv \in V2}
-  \cup {One("EvalSha", [sha |-> "0123abcd", ks |-> kk, ss |-> vv], <<"evalsha", "0123abcd", S(Len(kk))>> \o kk \o vv) : kk \in KS, vv \in V2}
+  \cup UNION {{One("Eval", [script |-> "return 1", ks |-> kk, ss |-> vv, sh |-> sh], <<"eval", "return 1", S(Len(kk))>> \o kk \o vv) :
+                  sh \in ShapesOf(Len(vv))} : kk \in KS, vv \in Upto2(V2)}
+  \cup UNION {{One("EvalSha", [sha |-> "0123abcd", ks |-> kk, ss |-> vv, sh |-> sh], <<"evalsha", "0123abcd", S(Len(kk))>> \o kk \o vv) :
+                  sh \in ShapesOf(Len(vv))} : kk \in KS, vv \in Upto2(V2)}
   \cup {One("ScriptLoad", [script |-> "return 1"], <<"script", "load", "return 1">>)}
   \cup {One("Ping", [z |-> 0], <<"ping">>)}
   \* Pipelined(fn) with fn = {Set(k, s); Get(k)}: the queued commands, in order, nothing else
